@@ -315,6 +315,13 @@ inline void randomise(Obj & ob, Rng & r, const GenOpts & g = GenOpts()) {
         }
         }
     }
+    // CAN FD 64 ext-data variant: the API expresses it through extDataOffset (where the ext block starts) and an objectSize
+    // large enough to hold it (hasExtData() looks at both before write() recomputes objectSize)
+    if ((cls == "CanFdMessage64" || cls == "CanFdErrorFrame64") && r.chance(1, 3)) {
+        uint32_t base = ob.o->calculateObjectSize();          // extDataOffset is 0 here: size without the ext block
+        const Field & rest = ob.get("reservedCanFdExtFrameData");
+        if (base <= 255) { ob.get("extDataOffset").set_u64(base); ob.o->objectSize = base + 8 + (uint32_t)rest.nbytes(); }
+    }
     // CanErrorFrame.length is a plain scalar that gates a reserved member: nothing more to do.
     // SerialEvent: only the active variant stays populated unless asked otherwise
     if (!g.populate_inactive) {
@@ -408,6 +415,8 @@ inline std::string shape(const Obj & ob) {
     }
     if (!strcmp(ob.ci->name, "SerialEvent")) s << ":f" << (ob.u("flags") & 12);
     if (!strcmp(ob.ci->name, "CanErrorFrame")) s << ":l" << (ob.u("length") > 0);
+    if (!strcmp(ob.ci->name, "CanFdMessage64")) s << ":x" << static_cast<CanFdMessage64 *>(ob.o)->hasExtData();
+    if (!strcmp(ob.ci->name, "CanFdErrorFrame64")) s << ":x" << static_cast<CanFdErrorFrame64 *>(ob.o)->hasExtData();
     if (!strcmp(ob.ci->name, "EnvironmentVariable") || !strcmp(ob.ci->name, "J1708Message")) s << ":t" << (unsigned)ob.o->objectType;
     return s.str();
 }
